@@ -27,16 +27,37 @@ def mulMeaning (s : Obj) : List Py.Act → Option Obj
       (imulPrim s.bits n).map fun b => ⟨s.cls, b⟩
   | _ => none
 
+/-! The proof must not depend on how the source spells its guards (`not n` / `n == 0`, order of the guards, …): it is
+    also checked against harmlessly rewritten sources (Scratch/C01_SrcV*.lean).  Guards are turned into propositions
+    and decided by `omega` from the case hypotheses. -/
+
+/-- Decide every `if` whose condition (or its negation) follows from the context by linear arithmetic. -/
+macro "eval_guards" : tactic => `(tactic| simp (disch := omega) only [if_pos, if_neg])
+
+/-- Bool guards → propositions, decide them, flatten the trace. -/
+macro "run_guards" : tactic => `(tactic| (
+  try simp only [Bool.not_eq_true', Bool.not_eq_true, Bool.and_eq_true, Bool.or_eq_true, decide_eq_true_eq,
+    decide_eq_false_iff_not, Bool.not_eq_false', Bool.not_eq_false, Bool.and_eq_false_iff, Bool.or_eq_false_iff,
+    ne_eq, Bool.not_not, Except.bind]
+  try eval_guards
+  try simp only [Except.map, List.nil_append, List.cons_append, List.append_assoc, List.singleton_append]))
+
+theorem mulMeaning_empty (s : Obj) : mulMeaning s [⟨"return self.__class__()", []⟩] = some ⟨s.cls, []⟩ := by
+  simp [mulMeaning]
+
+theorem mulMeaning_three (s : Obj) (n : Int) :
+    mulMeaning s [⟨"L1 = self._copy()", []⟩, ⟨"L1._imul(_)", [some n]⟩, ⟨"return L1", []⟩]
+      = (imulPrim s.bits n).map fun b => ⟨s.cls, b⟩ := by
+  simp [mulMeaning]
+
 /-- `Bits.__mul__` as the source has it now = `C01.mul`, for every class, every content and every integer `n`
     (`n < 0`: ValueError on both sides; `n = 0`: the empty object of the class). -/
 theorem mul_eq (s : Obj) (n : Int) :
     (Gen.Src.mul (s.bits.length : Int) n).map (mulMeaning s) = (mul s n).map some := by
   unfold Gen.Src.mul mul
-  by_cases hn : n < 0
-  · simp [hn, Except.map]
-  · by_cases h0 : n = 0
-    · subst h0; simp [Except.map, mulMeaning]
-    · simp [hn, h0, Except.map, mulMeaning, imulPrim]
+  by_cases hn : n < 0 <;> by_cases h0 : n = 0 <;> (try (exfalso; omega)) <;> run_guards <;>
+    (try simp only [mulMeaning_empty, mulMeaning_three, imulPrim]) <;> (try eval_guards) <;>
+    (try simp only [Option.map_some])
 
 /-- Non-vacuity: `BitStream('0b10') * 3` really goes through copy / `_imul` / return. -/
 example : (Gen.Src.mul 2 3).map (mulMeaning ⟨.bitStream, [true, false]⟩)
